@@ -17,7 +17,7 @@ SHARDS = {"quick": 8, "thorough": 16}
 RULE = ("a settable state (power, mode 1..6, setpoint 13.0..43.5 step 0.5, fan 0..127, swing, eco, turbo, sleep, Fahrenheit, "
         "freeze protection, follow-me, purifier, target humidity 0..127, aux mode, beep) is written through AirConditioner "
         "setters + apply() to a model device whose 0x40 decoder follows the vendor Lua layout (and through SetStateCommand "
-        "directly for all 16 raw swing nibbles), on a fresh client or after get_capabilities() against two capability profiles (one without custom fan speeds), with or without property-protocol settings pending in the same apply(); the decoded body must equal the request field by field, vendor-fixed constants must "
+        "directly for all 16 raw swing nibbles), on a fresh client or after get_capabilities() against two capability profiles (one without custom fan speeds), with or without property-protocol settings pending in the same apply(), through the canonical attributes or the deprecated alias attributes (eco_mode, turbo_mode, sleep_mode, freeze_protection_mode); the decoded body must equal the request field by field, vendor-fixed constants must "
         "hold (0x40, mobile-client bit, timers off, swing high bits 0x30, undefined bits clear), and no two different states may "
         "share a body. Per-field exhaustive sweeps (62 setpoints x 6 modes, 128 fan bytes, humidity 0..127, flags sharing a "
         "byte in all combinations) over two backgrounds, a greedy pairwise covering array, and Hypothesis random states. "
@@ -30,7 +30,7 @@ BASE = {"power": False, "mode": 2, "target": 24.0, "fan": 102, "swing": 0, "eco"
 FLAGS = ["power", "beep", "follow_me", "turbo", "eco", "purifier", "sleep", "fahrenheit", "freeze"]
 
 
-def _apply_and_get_body(s: dict, via: str, caps_profile=None, case_propset=0):
+def _apply_and_get_body(s: dict, via: str, caps_profile=None, case_propset=0, case_aliases=False):
     """Returns (body bytes, model state, rejected list)."""
     from msmart.device import AirConditioner as AC
     from msmart.device.AC.command import SetStateCommand
@@ -70,7 +70,19 @@ def _apply_and_get_body(s: dict, via: str, caps_profile=None, case_propset=0):
             await ac.get_capabilities()
             if caps_profile == "caps0+refresh":
                 await ac.refresh()
-        acutil.set_attrs(ac, s)
+        if case_aliases:
+            # (set the canonical attributes to the opposite first so that only the alias carries the requested value)
+            acutil.set_attrs(ac, dict(s, eco=not s["eco"], turbo=not s["turbo"], sleep=not s["sleep"], freeze=not s["freeze"]))
+        else:
+            acutil.set_attrs(ac, s)
+        if case_aliases:
+            # the deprecated alias attributes are still public API: they must set the same state
+            ac.eco_mode = s["eco"]
+            ac.turbo_mode = s["turbo"]
+            ac.sleep_mode = s["sleep"]
+            ac.freeze_protection_mode = s["freeze"]
+            for name in ("eco", "turbo", "sleep", "freeze_protection"):
+                pass
         if case_propset:
             # settings carried by the property protocol changed since the last apply (they travel in a second command)
             dev.ac.props.update({0x0009: b"\x00", 0x000A: b"\x00", 0x0048: b"\x64", 0x00E3: bytes(12), 0x0043: b"\x01", 0x0042: b"\x01", 0x0018: b"\x00"})
@@ -94,7 +106,7 @@ _SEEN: dict = {}
 def check_case(case: dict):
     s = case["state"]
     via = case.get("via", "device")
-    body, state, rejected = _apply_and_get_body(s, via, case.get("caps"), case.get("propset", 0))
+    body, state, rejected = _apply_and_get_body(s, via, case.get("caps"), case.get("propset", 0), case.get("aliases", False))
     if rejected:
         return ("rejected", f"model device rejected the command: {rejected[0][1]}")
     if body is None:
@@ -134,7 +146,7 @@ def replay(ctx, case):
 def _run_one(ctx, case):
     s = case["state"]
     nt = s != BASE
-    ctx.case(hash((tuple(sorted(s.items())), case.get("via", "device"), case.get("caps"), case.get("propset", 0))), nt, cls=case.get("cls", "state") + "/" + case.get("via", "device"))
+    ctx.case(hash((tuple(sorted(s.items())), case.get("via", "device"), case.get("caps"), case.get("propset", 0), case.get("aliases", False))), nt, cls=case.get("cls", "state") + "/" + case.get("via", "device"))
     if case.get("caps") and case.get("via", "device") == "device":
         ctx.label("after get_capabilities (" + case["caps"] + ")")
     ctx.sample(case.get("cls", "state"), case)
@@ -207,6 +219,8 @@ def run(ctx) -> None:
                 case = dict(case, caps=["caps0", "caps1", "caps0+refresh"][(i // 5) % 3])
             elif "via" not in case and i % 5 == 2:
                 case = dict(case, propset=1 + (i // 5) % 2)
+            elif "via" not in case and i % 10 == 0:
+                case = dict(case, aliases=True)
             ctx.check(case, lambda c: _run_one(ctx, c))
     ctx.sweep("per-field exhaustive sweeps x 2 backgrounds + flag combinations + pairwise array", len(cases), True)
 
@@ -214,5 +228,5 @@ def run(ctx) -> None:
     wide = st.fixed_dictionaries({"state": st.one_of(full, full.flatmap(lambda s: st.integers(0, 127).map(lambda f: dict(s, fan=f))),
                                                      full.flatmap(lambda s: st.integers(0, 127).map(lambda h: dict(s, humidity=h)))),
                                   "via": st.sampled_from(["device", "device", "command"]), "cls": st.just("random"),
-                                  "caps": st.sampled_from([None, "caps0", "caps1", "caps0+refresh"]), "propset": st.sampled_from([0, 0, 1, 2])})
+                                  "caps": st.sampled_from([None, "caps0", "caps1", "caps0+refresh"]), "propset": st.sampled_from([0, 0, 1, 2]), "aliases": st.sampled_from([False, False, True])})
     ctx.hyp("random", wide, lambda c: _run_one(ctx, c), ctx.n(2500, 320000))
